@@ -14,7 +14,7 @@ EPS = 2.0 ** -52
 TAU = 1e-7           # "same direction" threshold of the design (rad); bounds what an epsilon band may cost
 BAND = 1e-9          # hemisphere test of SphericalRegion: dot > -1e-9
 SNAP = 1e-8          # np.isclose(x, 0) in Vector3d.azimuth
-KERNELS = ["vector2xy", "xy2vector"]
+KERNELS = ["vector2xy", "xy2vector", "from_polar_xyz"]
 POLE = {"n": 1, "s": -1}
 HEMI = {"s": "upper", "n": "lower"}
 
